@@ -152,6 +152,9 @@ def judge(d: specgen.Doc, disc: dict, surface: dict, strategy: str, rec, feats, 
             else:
                 exp = snake(oid)
                 ok = got == exp
+            if not ok and keyword.iskeyword(exp) or exp in ("none", "true", "false", "match", "case", "type"):
+                # a name that is a Python keyword cannot be a method name: the escaped spelling follows the strategy
+                ok = ok or got in (exp + "_", "_" + exp)
             if not ok:
                 rec.violation(f"method:name_not_following_strategy:{strategy}", feats, case, f"operationId {oid!r} -> {got!r}, expected {exp!r}")
 
